@@ -1,6 +1,8 @@
 use crate::{
     op_nothing::Nothing,
-    operation::{Operation, OperationControl, RepeatOperation, MATCHES_ZLS_ANYWHERE},
+    operation::{
+        Operation, OperationControl, RepeatOperation, RestoreGroupsIterator, MATCHES_ZLS_ANYWHERE,
+    },
     re_flags::ReFlags,
     re_matcher::ReMatcher,
 };
@@ -71,9 +73,12 @@ impl OperationControl for GreedyFixed {
 
     fn matches_iter<'a>(
         &'a self,
-        matcher: &'a ReMatcher,
+        matcher: &'a ReMatcher<'a>,
         position: usize,
     ) -> Box<dyn Iterator<Item = usize> + 'a> {
+        let saved = self
+            .contains_capturing_expressions()
+            .then(|| matcher.group_state());
         let mut guard = matcher.search.len();
         if self.max < usize::MAX {
             guard = guard.min(position.saturating_add(self.len.saturating_mul(self.max)))
@@ -98,6 +103,9 @@ impl OperationControl for GreedyFixed {
             }
         }
         if matches < self.min {
+            if let Some(saved) = saved {
+                matcher.reset_group_state(saved);
+            }
             return Box::new(std::iter::empty());
         }
         let steps = IntStepIterator::new(
@@ -111,12 +119,16 @@ impl OperationControl for GreedyFixed {
             let len = self.len;
             let operation = self.operation.as_ref();
             let mut first = true;
-            Box::new(steps.inspect(move |end| {
-                if !first && *end >= position + len {
-                    operation.matches_iter(matcher, *end - len).next();
-                }
-                first = false;
-            }))
+            RestoreGroupsIterator::wrap(
+                matcher,
+                saved,
+                Box::new(steps.inspect(move |end| {
+                    if !first && *end >= position + len {
+                        operation.matches_iter(matcher, *end - len).next();
+                    }
+                    first = false;
+                })),
+            )
         } else {
             Box::new(steps)
         }
